@@ -261,10 +261,14 @@ TRANSPORT = ("try_again", "no_recovery", "system", "asio")
 
 def mon_c02(s, v):
     f = []
+    # the layer below reported an error that no reconnect can cure (write_op / read_op: no_recovery): the documented outcome is that the client
+    # is cancelled and the operations in flight end with that code - not one of the outages the property quantifies over
+    fatal = [i for i, (line, evs, st, t) in enumerate(s.tr) if line.split()[:1] in (["wdone"], ["rdone"]) and line.split()[2:3] == ["no_recovery"]]
     for o in s.ops.values():
         if o.kind not in ("pub", "sub", "unsub"): continue
         for ev, di, t in o.done:
             ec = done_fields(ev)["ec"]
+            if ec == "no_recovery" and fatal and di >= fatal[0]: continue
             if ec.startswith(TRANSPORT): f.append(f"{o.name}: completed with transport error {ec}")
             if ec == "aborted" and not o.cancelled: f.append(f"{o.name}: completed with operation_aborted although the caller never cancelled it")
     if s.ending == "cancel" and not s.crashed and hasattr(s, "heal_end"):
